@@ -179,7 +179,13 @@ def run(ctx):
             if events is None:
                 why = f"{entry} gives {out!r}"
             else:
-                got = [tuple(e.items) if isinstance(e, Seq) else e for e in events]
+                flat = []
+                for e in events:   # a buffered implementation may hand several operations to the file at once
+                    if isinstance(e, Seq) and e.kind == "list":
+                        flat.extend(e.items)
+                    else:
+                        flat.append(e)
+                got = [tuple(e.items) if isinstance(e, Seq) else e for e in flat]
                 body = [e for e in got if isinstance(e, tuple)]
                 tail = [e for e in got if not isinstance(e, tuple)]
                 if body != want:
@@ -217,9 +223,92 @@ def run(ctx):
     eff.check_fwd(ctx, [(MOD + ".dumps", "_NonrecursivePickler", {"obj": None}), (MOD + ".dump", "_NonrecursivePickler", {"obj": None})])
     # ---- REGISTRY (shared with C05)
     c05.registry(ctx, h, res)
+    roundtrip_state(ctx, h, res)
     common.vacuity(res, "SPLICE-ORDER", 60)
     res.analysed = common.analysed(ctx, [MOD + ".dumps", MOD + ".dump", MOD + "._NonrecursivePickler.dump", MOD + "._NonrecursivePickler.save"])
     res.extra["not_decided"] = "round-trip isomorphism for all graphs / protocols (dill and pickle byte-level behaviour)"
+
+
+def copy_by_object_protocol(h, roots):
+    """pickle's default object protocol on the abstract heap: a new instance of the same class without __init__, whose state is
+    __getstate__() if the class defines it, else the instance dictionary; __setstate__ if defined.  Containers are copied,
+    references are mapped to the copies (shared objects stay shared)."""
+    from sa.ae import DictV, SetV
+    I = h.I
+    clones = {}
+
+    def conv(v):
+        if isinstance(v, Obj):
+            return clone(v)
+        if isinstance(v, Seq):
+            return Seq([conv(x) for x in v.items], v.kind)
+        if isinstance(v, DictV):
+            return DictV([[conv(k), conv(x)] for k, x in v.pairs])
+        if isinstance(v, SetV):
+            return SetV([conv(x) for x in v.items], v.frozen)
+        return v
+
+    def clone(o):
+        if id(o) in clones:
+            return clones[id(o)]
+        n = Obj(o.cls, (o.name or o.cls.name) + "'")
+        clones[id(o)] = n
+        gs, owner = o.cls.lookup("__getstate__")
+        if gs is not None and not owner.builtin:
+            state = I.call(gs, [o], {})
+        else:
+            state = DictV([[k, v] for k, v in o.fields.items()])
+        state = conv(state)
+        ss, owner2 = o.cls.lookup("__setstate__")
+        if ss is not None and not owner2.builtin:
+            I.call(ss, [n, state], {})
+        elif isinstance(state, DictV):
+            for k, v in state.pairs:
+                n.fields[k] = v
+        elif state is not None:
+            raise Unknown("__getstate__ returned a non-dict state without __setstate__")
+        return n
+
+    return [clone(r) for r in roots]
+
+
+def roundtrip_state(ctx, h, res):
+    """"the copy is fully usable when loaded in a fresh interpreter, with neighbor caching on or off": the object protocol's
+    state (instance dict or __getstate__) taken under one flag setting must suffice under the other."""
+    from rules import c04
+    nb = h.fn(c04.FN)
+    bft = h.fn("edgegraph.traversal.breadthfirst.bft")
+    n = 0
+    for dump_flag in (False, True):
+        for load_flag in (False, True):
+            for warm in (False, True):
+                try:
+                    h.reset()
+                    a, b, c = h.new("Vertex", "a"), h.new("Vertex", "b"), h.new("Vertex", "c")
+                    e = h.new("DirectedEdge", "e", a, b)
+                    u = h.new("Universe", "U", vertices=Seq([a, b, c], "list"))
+                    h.settle()
+                    c05.set_flag(h, dump_flag)
+                    if warm:
+                        h.call(nb, a)
+                    a2, b2, c2, e2, u2 = copy_by_object_protocol(h, [a, b, c, e, u])
+                    h.w.restore()      # fresh interpreter: class-level state is gone, instances keep theirs
+                    c05.set_flag(h, load_flag)
+                    outs = [h.call(nb, a2), h.call(nb, a2), h.call(bft, u2, a2), h.setattr(e2, "v2", c2), h.call(nb, a2), h.call(h.fn("edgegraph.builder.explicit.unlink"), a2, c2), h.call(nb, a2)]
+                except Unknown as un:
+                    res.ob(False)
+                    res.undecide(f"round-trip state dump_flag={dump_flag} load_flag={load_flag}: {un}")
+                    continue
+                n += 1
+                want = [["b'"], ["b'"], ["a'", "b'"], None, ["c'"], None, []]
+                got = [([x.name for x in o.value.items] if isinstance(o.value, Seq) else o.value) if o.kind == "return" else "raise " + o.excname for o in outs]
+                ok = got == want
+                res.ob(ok, sig=("roundtrip", dump_flag, load_flag, warm))
+                if not ok:
+                    res.violation("ROUNDTRIP-STATE", "edgegraph.structure.vertex.Vertex", f"caching-at-dump={dump_flag},caching-at-load={load_flag}",
+                                  f"a graph copied through the object protocol (state = {'__getstate__()' if h.cls('Vertex').lookup('__getstate__')[0] else 'instance dict'}) with caching {'on' if dump_flag else 'off'} at dump time "
+                                  f"and {'on' if load_flag else 'off'} at load time answers {got} to [neighbors(a), neighbors(a), bft(U, a), e.v2 = c, neighbors(a), unlink(a, c), neighbors(a)]; expected {want}")
+    res.rule("ROUNDTRIP-STATE", n)
 
 
 def nonrec_structural(ctx, res):
